@@ -638,8 +638,8 @@ def r15_6(ctx):
             break
     where = b.loc(b.blocks[culprit[0]]['t'].get('sp')) if culprit else b.loc()
     ctx.fail(R, key + '|gives up only when empty', where,
-             'composite_surface can return without copying a row although no emptiness test was passed%s: requests whose block inside both surfaces is not empty are dropped (e.g. a src_rect overhanging the source on its top or left side)'
-             % ((' — the path leaves through `%s`' % fmt(b, culprit[1])[:120]) if culprit else ''))
+             'composite_surface can return without copying a row behind a test that is not an emptiness test%s: the rule cannot show that every request turned away there has an empty block inside both surfaces (a point-containment test, for one, also drops a src_rect that overhangs the source on its top or left side)'
+             % ((' — `%s`' % fmt(b, culprit[1])[:120]) if culprit else ''))
 
 
 def hazard_cut(cfg, site, edges):
